@@ -13,8 +13,11 @@ for m in rows:
     co = [c for c in m["caught_by"] if c not in wi]
     tgt = m["breaks_property"]
     t = "**missed**" if tgt not in m["caught_by"] else ("failing input" if tgt in wi else "correspondence only")
-    if m.get("after_strengthening"):
-        t += " → " + m["after_strengthening"]
+    if m.get("previous_runs"):
+        pr = m["previous_runs"][0]
+        t0 = "missed" if not pr["target_check_catches"] else ("failing input" if tgt in pr["caught_with_failing_input"] else "correspondence only")
+        if t0 != t.strip("*"):
+            t = "first run: %s; after strengthening: %s" % (t0, t)
     print("| %s | %s | %s | %s | %s | %s |" % (m["name"], tgt, m["needs_to_manifest"].replace("|", "/"), t, " ".join(wi) or "–", " ".join(co) or "–"))
 print()
 print("%d seeded changes; target check reports a violation for %d, with a concrete failing input for %d."
